@@ -1282,7 +1282,9 @@ class ComputeGraph(MultiDiGraph):
                 expr = node.symbol
             elif 'dummy_constant' in node.name:
                 val = float(np.squeeze(node.value))
-                expr = Symbol(str(val))
+                # (the value is printed via the symbol's name: a negative number needs parentheses, or `m*m` with
+                # m = -1.25 would be emitted as `-1.25**2`)
+                expr = Symbol(str(val) if val >= 0 else f"({val})")
             else:
                 expr = node.symbol
 
